@@ -698,11 +698,17 @@ def _renorm(ctx, rule):
     return c14.r2_renormalisation(ctx, rule)
 
 
+def _not_aliased(ctx, rule):
+    # what is read back for one file must not also be what is read back for another (seed C07-i: M, E and W one list)
+    from . import c01
+    return c01.r11_sections_not_aliased(ctx, rule)
+
+
 def rules(tier):
     return [('C07.R1', r1_separator_inclusion), ('C07.R2', lambda c, r: r2_encoding_agreement(c, r)),
             ('C07.R3', r3_record_layout), ('C07.R5', r5_strip_discipline), ('C07.R6', r6_wipe_before_write),
             ('C07.R7', r7_paths_written), ('C07.R8', c04.r5_grouping_kernel), ('C07.R9', lambda c, r: c03.r1_tag_chain(c, r, scope='disk')),
-            ('C07.R10', r10_loader_complete), ('C07.R11', _renorm)]
+            ('C07.R10', r10_loader_complete), ('C07.R11', _renorm), ('C07.R12', _not_aliased)]
 
 
 META = {
